@@ -9,6 +9,11 @@ HARNESSES = {}
 def qs(tag, L, tier):
     U = L + 3
     sh = 'every NUL-free string of length exactly %d' % L
+    opt = ['accepted duration has the exact value', 'duration variable has the exact value', 'accepted uint variable has the exact value'] if L == 0 else []
+    qs_ = _qs(tag, L, tier, U, sh)
+    for q in qs_: q['optional_reach'] = opt
+    return qs_
+def _qs(tag, L, tier, U, sh):
     return [
       dict(name='timeout_from_string_len%d' % L, harness=tag, entry='h_timeout_from_string', unwind=U, tier=tier, timeout=900, solvers=['cadical', 'minisat'], shape=sh),
       dict(name='duration_env_len%d' % L, harness=tag, entry='h_duration_env', unwind=U, tier=tier, timeout=900, solvers=['cadical', 'minisat'], shape='unset or ' + sh + '; errno pre-state symbolic'),
